@@ -21,10 +21,12 @@ def monitor (a : OpInst) (impl : String) : Option Bool :=
     | none =>
       -- framing error (body is not an encoding of the layout): detected → A and B fail; or skipped harmlessly
       -- while reporting a broker error → nothing unread, B as fresh.  Never "ok".
-      some ((isFailStr ra && isFailStr rb) || (ra.startsWith "kafka:" && unread == "0" && same == "same"))
+      -- B failing with io.ErrNoProgress was attempted on a stream left in mid-response: after a failed A the Conn is
+      -- closed and B fails before reading anything
+      some ((isFailStr ra && isFailStr rb && rb != "fail:noprogress") || (ra.startsWith "kafka:" && unread == "0" && same == "same"))
     | some okA =>
       some (okA && isDone ra && isDone rb &&
-        (if isFailStr ra then isFailStr rb else unread == "0" && same == "same"))
+        (if isFailStr ra then isFailStr rb && rb != "fail:noprogress" else unread == "0" && same == "same"))
   | _ => some false
 
 def model (topic : Bytes) (a b : OpInst) : Option String :=
@@ -55,6 +57,32 @@ def modelChain (topic : Bytes) (delta : Nat) (a b c : OpInst) : Option String :=
         let sb := if showOutcome ra == "hang" then "hang" else showOutcome rb
         let sc := if sb == "hang" then "hang" else showOutcome rc
         some s!"{showOutcome ra} {sb} {sc}"
+
+/-- the first operation on a fresh Conn negotiates its version; ApiVersions is answered with `av1` (an error code, some
+list), then with `av2`; the operation is called twice (Model/ConnVersions.lean, `strict` regenerated) -/
+def modelVersions (topic av1 av2 : Bytes) (a : OpInst) : Option String :=
+  let stream := frame 1 av1 ++ frame 2 av2 ++ frame 3 a.body
+  let strict := Gen.ConnLegacy.loadVersionsStrict
+  match specOf "apiVersions" with
+  | none => none
+  | some av =>
+    if a.name == "fetch" then
+      let r1 := ConnVersions.vFetch strict av fetchFixed a.offset headerBody topic (ConnVersions.VConn.fresh stream 1)
+      let r2 := ConnVersions.vFetch strict av fetchFixed a.offset headerBody topic r1.2
+      some s!"{showOutcome r1.1} {showOutcome r2.1}"
+    else match specOf a.name, ConnVersions.negotiating a.name with
+      | some o, some (key, cands) =>
+        let r1 := ConnVersions.vDo strict av key cands o topic (ConnVersions.VConn.fresh stream 1)
+        let r2 := ConnVersions.vDo strict av key cands o topic r1.2
+        some s!"{showOutcome r1.1} {showOutcome r2.1}"
+      | _, _ => none
+
+/-- the caller of the first operation gets the broker's error (the code in `av1`), the second call is served as on a
+fresh connection: its own response, judged by the Spec layout -/
+def monitorVersions (av1 : Bytes) (a : OpInst) (impl : String) : Bool :=
+  match words impl with
+  | [r1, r2] => r1 == s!"kafka:{beInt (av1.take 2)}" && (specJudge a r2 == some true) && isDone r2
+  | _ => false
 
 /-- a slow link: k bytes of A's frame, then nothing until A's deadline has passed.  The model has no time: a stream
 that stalls past the deadline is a stream that ends after k bytes. -/
@@ -98,7 +126,7 @@ def monitorSeq (xs : List OpInst) (impl : String) : Bool :=
     match xs, rs with
     | [], [] => true
     | x :: xr, r :: rr =>
-      if dead then isFailStr r && go xr rr true
+      if dead then isFailStr r && r != "fail:noprogress" && go xr rr true
       else
         let okHere := match specJudge x r with
           | some ok => ok && isDone r
@@ -161,6 +189,13 @@ def step (line : String) : String :=
         | some m => s!"model={m} holds={if monitorChain impl then 1 else 0}"
         | none => "bad-op"
       | _, _, _, _, _ => "bad-args"
+    | ["c11v", t, h1, h2, sa, ha] =>
+      match ofHex t, ofHex h1, ofHex h2, parseInst sa ha with
+      | some topic, some av1, some av2, some a =>
+        match modelVersions topic av1 av2 a with
+        | some m => s!"model={m} holds={if monitorVersions av1 a impl then 1 else 0}"
+        | none => "bad-op"
+      | _, _, _, _ => "bad-args"
     | ["c11w", t, ks, sa, ha, sb, hb] =>
       match ofHex t, ks.toNat?, parseInst sa ha, parseInst sb hb with
       | some topic, some k, some a, some b =>
